@@ -238,18 +238,19 @@ static void recovery(const struct rimpl *im, int vects, int len)
 }
 
 /* long stripes: loop counters and offsets beyond 64 KiB and 1 MiB, 5 vectors, xorshift data, reference computed on the fly */
-static void gen_big(const struct rimpl *im, int len)
+static void gen_big(const struct rimpl *im, int len, int start_aligned)
 {
 	char key[256];
 	int vects = 5, npar = im->op == R_PQ_GEN ? 2 : 1, nsrc = vects - npar;
 	void **arr = g_alloc(vects * sizeof(void *), G_END);
 	uint8_t *src[8];
 	for (int i = 0; i < nsrc; i++) {
-		src[i] = g_alloc_end_aligned(len, im->align);
+		src[i] = start_aligned ? g_alloc_off(len, 0) : g_alloc_end_aligned(len, im->align);
 		fill_xorshift(src[i], len, 500 + i);
 		arr[i] = src[i];
 	}
-	uint8_t *P = g_alloc_end_aligned(len, im->align), *Q = npar == 2 ? g_alloc_end_aligned(len, im->align) : NULL;
+	/* start_aligned: every vector starts on a page boundary (64-byte and more aligned) instead of ending at a guard page */
+	uint8_t *P = start_aligned ? g_alloc_off(len, 0) : g_alloc_end_aligned(len, im->align), *Q = npar == 2 ? (start_aligned ? g_alloc_off(len, 0) : g_alloc_end_aligned(len, im->align)) : NULL;
 	memset(P, 0xAA, len);
 	arr[nsrc] = P;
 	if (Q) {
@@ -262,7 +263,7 @@ static void gen_big(const struct rimpl *im, int len)
 		r = (int)PCALL(im->f, vects, len, arr);
 		V_END();
 	} else {
-		snprintf(key, sizeof key, "%s fault vects=5 len=%d big", im->name, len);
+		snprintf(key, sizeof key, "%s fault vects=5 len=%d big %s", im->name, len, start_aligned ? "page-aligned" : "end-flush");
 		v_violation(key, "%s", v_fault_desc());
 		nfail++;
 		g_reset();
@@ -277,7 +278,7 @@ static void gen_big(const struct rimpl *im, int len)
 			qq = rgf_mul_slow(qq, 2) ^ src[i][j];
 		}
 		if (P[j] != pp || (Q && Q[j] != qq)) {
-			snprintf(key, sizeof key, "%s wrong vects=5 len=%d big", im->name, len);
+			snprintf(key, sizeof key, "%s wrong vects=5 len=%d big %s", im->name, len, start_aligned ? "page-aligned" : "end-flush");
 			v_violation(key, "byte %d: P %02x (expected %02x) Q %02x (expected %02x)", j, P[j], pp, Q ? Q[j] : 0, qq);
 			nfail++;
 			bad = 2;
@@ -353,10 +354,13 @@ int main(int argc, char **argv)
 				}
 			/* long stripes */
 			{
-				static const int bigl[] = { 65536 + 64, (1 << 20) + 96, (1 << 24) + 32 };
+				/* every residue of the 128-byte main loop at 64 KiB and 1 MiB (and 16 MiB in thorough), vectors page-aligned and end-flush */
+				static const int bigb[] = { 65536, 1 << 20, 1 << 24 }, bigr[] = { 0, 32, 64, 96, 160 };
 				for (int bi = 0; bi < (v_thorough ? 3 : 2); bi++)
-					if (v_mine(unit++) && im->level < 0)
-						gen_big(im, bigl[bi]);
+					for (int ri = 0; ri < 5; ri++)
+						for (int sa = 0; sa < 2; sa++)
+							if (v_mine(unit++) && im->level < 0)
+								gen_big(im, bigb[bi] + bigr[ri], sa);
 			}
 			/* many vectors */
 			for (unsigned vi = 0; vi < sizeof vbig / sizeof vbig[0]; vi++) {
